@@ -254,7 +254,8 @@ fn gen_conditions(ctx: &mut Ctx) -> Result<String, String> {
     if !wraps { return Err("key.rs load_entry: error arm is not `Err(Error::new(id, err))`".into()); }
     let any = ctx.file("src/anycache.rs")?.clone();
     let aa = find_fn(&any, "CacheExt", "add_any")?;
-    let m2 = if squash(aa.block).contains("CacheEntry::new(asset,id,||self._has_reloader())") { "hasReloader" } else { return Err("add_any: CacheEntry::new call not recognised".into()) };
+    let aab = squash(aa.block);
+    let m2 = if aab.contains("CacheEntry::new(asset,id,||self._has_reloader())") { "hasReloader" } else if aab.contains("CacheEntry::new(asset,id,||false)") { "false" } else { return Err("add_any: CacheEntry::new call not recognised".into()) };
     let ihr = find_fn(&any, "AnyCache", "is_hot_reloaded")?;
     if squash(ihr.block) != "{self.cache._has_reloader()}" { return Err("AnyCache::is_hot_reloaded: unexpected body".into()); }
     out.push_str(&format!("/-- entries created by a load: `CacheEntry::new(asset, id, || cache.is_hot_reloaded())` -/\ndef loadedEntryDynamic (typeHot hasReloader : Bool) : Bool := entryDynamic typeHot {m1}\n\n"));
@@ -283,9 +284,33 @@ fn gen_conditions(ctx: &mut Ctx) -> Result<String, String> {
     out.push_str("/-- look-ups (`get_cached_entry_inner`, `load_owned_entry`) record an asset dependency, and\n`load_and_record` opens a recording frame, iff the type is hot-reloaded and the cache has a reloader -/\ndef recordsAsset (typeHot hasReloader : Bool) : Bool := typeHot && hasReloader\n\n");
     // load_and_record registers only on success
     let lar = squash(find_fn(&asset, "", "load_and_record")?.block);
-    let reg_ok = lar.contains("ifentry.is_ok(){reloader.add_asset(id,deps,typ);}returnentry;");
-    if !reg_ok { return Err("load_and_record: `if entry.is_ok() { reloader.add_asset(..) } return entry;` not found".into()); }
+    let to_parent = if lar.contains("ifentry.is_ok(){reloader.add_asset(id,deps,typ);}returnentry;") { false }
+        else if lar.contains("ifentry.is_ok(){reloader.add_asset(id,deps,typ);}else{crate::hot_reloading::records::add_records(reloader,&deps);}returnentry;") { true }
+        else { return Err("load_and_record: `if entry.is_ok() { reloader.add_asset(..) } [else { records::add_records(reloader, &deps) }] return entry;` not found".into()) };
     out.push_str("/-- `load_and_record` tells the reloader about an asset only when its load succeeded -/\ndef registersOnlyOnOk : Bool := true\n\n");
+    out.push_str(&format!("/-- what a failed (hot, recorded) load read is handed to the enclosing record (`records::add_records`) -/\ndef failedLoadRecordsToParent : Bool := {to_parent}\n\n"));
+    if to_parent {
+        let rec = ctx.file("src/hot_reloading/records.rs")?.clone();
+        let ar = squash(find_fn(&rec, "", "add_records")?.block);
+        if !ar.contains("ifrecorder.reloader==reloader{recorder.records.0.extend(deps.iter().cloned());}") { return Err("records::add_records: unexpected body".into()); }
+    }
+    // reload_untyped / DepsGraph::reload
+    let ru = squash(find_fn(&any, "AnyCache", "reload_untyped")?.block);
+    let skips_static = ru.contains("if!handle.is_dynamic(){returnNone;}");
+    let keeps_new = if ru.contains("Err(err)=>{log::warn!(\"Errorreloading\\\"{}\\\":{}\",err.id(),err.reason());None}") { false }
+        else if ru.contains("Some((deps,true))") && ru.contains("Some((deps,false))") { true }
+        else { return Err("reload_untyped: result arms not recognised".into()) };
+    let catches_panic = ru.contains("catch_unwind");
+    let dg = ctx.file("src/hot_reloading/dependencies.rs")?.clone();
+    let rl = squash(find_fn(&dg, "DepsGraph", "reload")?.block);
+    if keeps_new {
+        if !rl.contains("Some((new_deps,true))=>self.insert(Dependency::Asset(key),new_deps,typ),") || !rl.contains("Some((new_deps,false))=>self.add_deps(Dependency::Asset(key),new_deps),") { return Err("DepsGraph::reload: arms not recognised".into()); }
+        let ad = squash(find_fn(&dg, "DepsGraph", "add_deps")?.block);
+        if ad != "{forkeyindeps.iter(){letentry=self.0.entry(key.clone()).or_default();entry.rdeps.insert(asset_key.clone());}ifletSome(entry)=self.0.get_mut(&asset_key){entry.deps.extend(&deps);}}" { return Err(format!("DepsGraph::add_deps: unexpected body `{ad}`")); }
+    } else if !rl.contains("ifletSome(new_deps)=new_deps{self.insert(Dependency::Asset(key),new_deps,typ);}") { return Err("DepsGraph::reload: body not recognised".into()); }
+    out.push_str(&format!("/-- `reload_untyped` leaves entries without lock (never-reloaded values) alone instead of writing to them -/\ndef reloadSkipsStatic : Bool := {skips_static}\n\n"));
+    out.push_str(&format!("/-- after a failed reload the graph keeps the old dependencies and adds what the failed attempt read -/\ndef failedReloadKeepsNewDeps : Bool := {keeps_new}\n\n"));
+    out.push_str(&format!("/-- a loader panic during a reload is caught (the reloader thread survives and answers) -/\ndef reloadCatchesPanic : Bool := {catches_panic}\n\n"));
     // Cache::read / read_dir: record before reading, iff reloader
     let rd = squash(find_fn(&any, "Cache for T", "read")?.block);
     if rd != "{#[cfg(feature=\"hot-reloading\")]ifletSome(reloader)=self.reloader(){records::add_file_record(reloader,id,ext);}self.get_source().read(id,ext)}" { return Err(format!("Cache::read: unexpected body `{rd}`")); }
